@@ -15,6 +15,10 @@ from .tokens import Dig, BytesTok
 MIB = 1024 * 1024
 
 
+class Crash(pse.PseAbort):
+    """the modelled process is killed at a chosen file-system operation (C15)"""
+
+
 class ModelGap(pse.PseAbort):
     """the code under test used an API surface the model does not provide (never a verdict)"""
 
@@ -267,10 +271,18 @@ class WriteFile:
             b = tokens.plain(b).encode("utf-8")
         elif self.text:
             raise TypeError("write() argument must be str, not bytes")
+        w = self.world
+        if w.crash_at is not None and len(w.ops) == w.crash_at:
+            if w.crash_torn and len(b) > 1:
+                part = bytes(b)[:len(b) // 2]
+                self.node.content.append(part)
+                self.node.size = self.node.size + len(part)
+                self.node.cid = w.fresh_cid()
+            raise Crash(("write", self.path))
         self.node.content.append(bytes(b))
         self.node.size = self.node.size + len(b)
-        self.node.cid = self.world.fresh_cid()
-        self.world.op("write", self.path, len(b))
+        self.node.cid = w.fresh_cid()
+        w.op("write", self.path, len(b))
         return len(b)
 
     def flush(self):
@@ -323,6 +335,8 @@ class World:
         self.cwd = self.ROOT_CWD
         self.escaped = []
         self.perm_counter = 0
+        self.crash_at = None  # index into the operation log at which the process is killed
+        self.crash_torn = False  # the write at that index is applied partially
 
     # ---- helpers for harnesses
     def fresh_cid(self):
@@ -330,6 +344,8 @@ class World:
         return self._cid
 
     def op(self, *a):
+        if self.crash_at is not None and len(self.ops) == self.crash_at and a[0] != "write":
+            raise Crash(a)  # killed before this operation takes effect
         self.ops.append(a)
 
     def add_file(self, path, cid, size, mtime=1577836800):
@@ -398,6 +414,10 @@ class World:
             return names
         if self.listing == "reversed":
             return names[::-1]
+        if self.listing == "rotated":
+            return names[1:] + names[:1]
+        if self.listing == "interleaved":
+            return names[1::2] + names[0::2]
         # symbolic permutation: selection by engine choices
         e = pse.cur()
         out = []
